@@ -51,7 +51,9 @@ structure Await (x : SG) (p : Peripheral) : Prop where
 
 structure Inv8 (g : G) : Prop where
   slot : ∀ (i : Nat) (p : Peripheral), g.m.slots[i]? = some (some p) → J8 (g.sg i) p
-  await : ∀ a, g.out = some a → ∀ i p, g.m.cur = some (i, p) → Await (g.sg i) p
+  /-- (for the peripheral the reply will be delivered to: after a `reset_address()` in flight the
+  peripheral at the cycle index has another address and the reply is ignored) -/
+  await : ∀ a, g.out = some a → ∀ i p, g.m.cur = some (i, p) → p.address = a → Await (g.sg i) p
 
 /-- A decline without event only happens while offline or waiting for parameters / configuration. -/
 theorem decline_none_state {fp : FdlParams} {op : OpState} {p p' : Peripheral}
@@ -237,7 +239,7 @@ theorem inv8_step {fp : FdlParams} (hfp : FpOk fp) {g g' : G} (hI : Inv fp g) (h
           · refine set_pres (fun j p => J8 (g.sg j) p) (fun j p => J8 (g.upd slot (fun _ => {}) j) p) h8.slot ?_ ?_
             · rw [upd_same]; exact j8_init rfl rfl
             · intro j q hjq hJ; rw [upd_other _ _ hjq]; exact hJ
-          · intro a' ha' j q hq
+          · intro a' ha' j q hq hpa
             rw [cur_of_set hj { g.m with slots := g.m.slots.set slot (some (p.resetAddress a)) } rfl rfl] at hq
             cases hc : g.m.cur with
             | none => rw [hc] at hq; cases hq
@@ -247,14 +249,19 @@ theorem inv8_step {fp : FdlParams} (hfp : FpOk fp) {g g' : G} (hI : Inv fp g) (h
               simp only [Option.map_some, Option.some.injEq] at hq
               have ho : g.out = some a' := ha'
               by_cases hij : i0 = slot
-              · exfalso
+              · -- the peripheral in flight was reset: to another address (nothing to show), or to the
+                -- address the reply is outstanding from — then the history is tainted
+                exfalso
+                simp only [hij, if_true, Prod.mk.injEq] at hq
+                obtain ⟨-, rfl⟩ := hq
+                have haa : a = a' := hpa
                 have h2 := hu.2
-                simp [resetTaints, ho, hc, hij] at h2
+                simp [resetInFlight, ho, hc, hij, haa] at h2
               · simp only [hij, if_false, Prod.mk.injEq] at hq
                 obtain ⟨rfl, rfl⟩ := hq
                 show Await (g.upd slot (fun _ => {}) i0) p0
                 rw [upd_other _ _ hij]
-                exact h8.await a' ho i0 p0 hc
+                exact h8.await a' ho i0 p0 hc hpa
   | tx now hp =>
     refine tx_elim hfp hI h Inv8 ?_ ?_ ?_ ?_
     · intro _ _ _
@@ -269,7 +276,7 @@ theorem inv8_step {fp : FdlParams} (hfp : FpOk fp) {g g' : G} (hI : Inv fp g) (h
       · refine set_pres (fun j p => J8 (g.sg j) p) (fun j p => J8 (g.upd i (sgSend hd p') j) p) h1 ?_ ?_
         · rw [upd_same]; exact j8_send (h1 i p hi) (hM1.pinv i p hi) hts
         · intro j q hj hJ; rw [upd_other _ _ hj]; exact hJ
-      · intro a _ j q hcq
+      · intro a _ j q hcq _
         have := cur_set (p' := p') hc ({} : Events)
         simp only [G.polled] at hcq
         rw [this] at hcq
@@ -291,7 +298,12 @@ theorem inv8_step {fp : FdlParams} (hfp : FpOk fp) {g g' : G} (hI : Inv fp g) (h
       · rw [upd_same]; exact j8_offline (h1 i p hi)
       · intro j q hj hJ; rw [upd_other _ _ hj]; exact hJ
   | reply a t =>
-    obtain ⟨index, i, p, p', ev, ho, hcy, hc, hpa, hal, hspec, rfl⟩ := reply_form hI hu0 h
+    have hst : Stale g a g' → Inv8 g' := by
+      rintro ⟨_, _, _, _, _, _, _, rfl⟩
+      exact ⟨h8.slot, by intro a ha; cases ha⟩
+    rcases reply_cases hI h with hdel | hs
+    case inr => exact hst hs
+    obtain ⟨index, i, p, p', ev, ho, hcy, hc, hpa, hal, hspec, rfl⟩ := hdel
     have hi := (curSlot_spec hc).2.2.1
     have hcur : g.m.cur = some (i, p) := by simp [Master.cur, hcy, hc]
     refine ⟨?_, by intro a ha; cases ha⟩
@@ -299,7 +311,7 @@ theorem inv8_step {fp : FdlParams} (hfp : FpOk fp) {g g' : G} (hI : Inv fp g) (h
       J8 (g.upd i (sgReply t p p') j) q
     refine set_pres (fun j p => J8 (g.sg j) p) (fun j q => J8 (g.upd i (sgReply t p p') j) q) h8.slot ?_ ?_
     · rw [upd_same]
-      exact j8_reply (h8.slot i p hi) (h8.await a ho i p hcur) (hI.m.pinv i p hi).fcb hspec
+      exact j8_reply (h8.slot i p hi) (h8.await a ho i p hcur hpa) (hI.m.pinv i p hi).fcb hspec
     · intro j q hj hJ; rw [upd_other _ _ hj]; exact hJ
   | timeout a =>
     simp only [gstep] at h
@@ -313,6 +325,10 @@ theorem inv8_step {fp : FdlParams} (hfp : FpOk fp) {g g' : G} (hI : Inv fp g) (h
     cases hev : g.m.lastEvents.peripheral with
     | none => exact ⟨h8.slot, h8.await⟩
     | some he =>
+      cases hsv : g.staleEv with
+      | true => simp only [↓reduceIte]; exact ⟨h8.slot, h8.await⟩
+      | false =>
+      simp only [Bool.false_eq_true, ↓reduceIte]
       refine ⟨?_, ?_⟩
       · intro j q hq
         show J8 (g.upd he.index (sgTake he.ev) j) q
@@ -320,8 +336,8 @@ theorem inv8_step {fp : FdlParams} (hfp : FpOk fp) {g g' : G} (hI : Inv fp g) (h
         · subst hj; rw [upd_same]
           exact j8_ghost_irrelevant (h8.slot _ q hq) rfl rfl rfl rfl rfl rfl rfl rfl
         · rw [upd_other _ _ hj]; exact h8.slot j q hq
-      · intro a ha j q hq
-        have hA := h8.await a ha j q hq
+      · intro a ha j q hq hpa
+        have hA := h8.await a ha j q hq hpa
         show Await (g.upd he.index (sgTake he.ev) j) q
         by_cases hj : j = he.index
         · subst hj; rw [upd_same]
@@ -351,7 +367,7 @@ theorem inv8_step {fp : FdlParams} (hfp : FpOk fp) {g g' : G} (hI : Inv fp g) (h
           · refine set_pres (fun j p => J8 (g.sg j) p) (fun j p => J8 (g.sg j) p) h8.slot ?_ (fun _ _ _ h => h)
             have hJ := h8.slot slot p hj
             exact ⟨hJ.first, hJ.lastNone, hJ.toggled, hJ.snap, hJ.kind, hJ.count⟩
-          · intro a ha j q hq
+          · intro a ha j q hq hpa
             rw [cur_of_set hj { g.m with slots := g.m.slots.set slot (some { p with piQ := bs }) } rfl rfl] at hq
             cases hc : g.m.cur with
             | none => rw [hc] at hq; cases hq
@@ -359,7 +375,7 @@ theorem inv8_step {fp : FdlParams} (hfp : FpOk fp) {g g' : G} (hI : Inv fp g) (h
               obtain ⟨i0, p0⟩ := ip
               rw [hc] at hq
               simp only [Option.map_some, Option.some.injEq] at hq
-              have hA := h8.await a ha i0 p0 hc
+              have hA := fun hp0 => h8.await a ha i0 p0 hc hp0
               by_cases hij : i0 = slot
               · subst hij
                 have := cur_slot hc
@@ -368,10 +384,11 @@ theorem inv8_step {fp : FdlParams} (hfp : FpOk fp) {g g' : G} (hI : Inv fp g) (h
                 subst this
                 simp only [if_true, Prod.mk.injEq] at hq
                 obtain ⟨rfl, rfl⟩ := hq
+                have hA := hA hpa
                 exact ⟨hA.notFirst, hA.last, hA.noReply, hA.notAcc, hA.inflight⟩
               · simp only [hij, if_false, Prod.mk.injEq] at hq
                 obtain ⟨rfl, rfl⟩ := hq
-                exact hA
+                exact hA hpa
         · cases hw
   | diagReq slot =>
     simp only [gstep] at h
@@ -398,7 +415,7 @@ theorem inv8_step {fp : FdlParams} (hfp : FpOk fp) {g g' : G} (hI : Inv fp g) (h
             have hJ := h8.slot slot p hj
             exact ⟨hJ.first, hJ.lastNone, hJ.toggled, hJ.snap, hJ.kind, hJ.count⟩
           · intro j q hjq hJ; rw [upd_other _ _ hjq]; exact hJ
-        · intro a ha j q hq
+        · intro a ha j q hq hpa
           rw [cur_of_set hj { g.m with slots := g.m.slots.set slot (some { p with diagNeeded := true }) } rfl rfl] at hq
           cases hc : g.m.cur with
           | none => rw [hc] at hq; cases hq
@@ -406,7 +423,7 @@ theorem inv8_step {fp : FdlParams} (hfp : FpOk fp) {g g' : G} (hI : Inv fp g) (h
             obtain ⟨i0, p0⟩ := ip
             rw [hc] at hq
             simp only [Option.map_some, Option.some.injEq] at hq
-            have hA := h8.await a ha i0 p0 hc
+            have hA := fun hp0 => h8.await a ha i0 p0 hc hp0
             by_cases hij : i0 = slot
             · subst hij
               have := cur_slot hc
@@ -417,12 +434,13 @@ theorem inv8_step {fp : FdlParams} (hfp : FpOk fp) {g g' : G} (hI : Inv fp g) (h
               obtain ⟨rfl, rfl⟩ := hq
               show Await (g.upd i0 (fun x => { x with diagReq := true }) i0) _
               rw [upd_same]
+              have hA := hA hpa
               exact ⟨hA.notFirst, hA.last, hA.noReply, hA.notAcc, hA.inflight⟩
             · simp only [hij, if_false, Prod.mk.injEq] at hq
               obtain ⟨rfl, rfl⟩ := hq
               show Await (g.upd slot (fun x => { x with diagReq := true }) i0) p0
               rw [upd_other _ _ hij]
-              exact hA
+              exact hA hpa
 
 
 /-- What is known when a request goes out to slot `i`: the peripheral `p` that sent it (slot `i` of
